@@ -27,7 +27,7 @@ def _residual(body):
 
 
 def lines_for(rng, lit):
-    out = {lit, "x" + lit + "y", lit + lit, "", "zz"}
+    out = {lit, "x" + lit + "y", lit + lit, "", "zz", lit.upper(), lit.title(), "x" + lit.swapcase()}       # the same text in another letter case is another text
     for _ in range(3):
         if lit:
             q = rng.randrange(len(lit))
